@@ -1,0 +1,30 @@
+//go:build verif
+
+// Contracts for property C06, worker w-c06: the comparison operators of compareOps (compile.go) are the
+// derived relations of the one order `less`. syntax.init$5..$8 are the function literals for
+// "<", ">", "<=", ">=" (in source order within the package initialiser).
+package syntax
+
+//@ func init$5(a, b)
+//@   tags C06, C10
+//@   pure
+//@   requires a != nil
+//@   ensures[C06] lt: result.0 == less(a, b) && result.1 == nil
+
+//@ func init$6(a, b)
+//@   tags C06, C10
+//@   pure
+//@   requires b != nil
+//@   ensures[C06] gt: result.0 == less(b, a) && result.1 == nil
+
+//@ func init$7(a, b)
+//@   tags C06, C10
+//@   pure
+//@   requires b != nil
+//@   ensures[C06] le: result.0 == !less(b, a) && result.1 == nil
+
+//@ func init$8(a, b)
+//@   tags C06, C10
+//@   pure
+//@   requires a != nil
+//@   ensures[C06] ge: result.0 == !less(a, b) && result.1 == nil
